@@ -308,7 +308,9 @@ def _chain_unit(desc, bp, cons, places, with_reflect):
     body.append("\tfmt.Println(%s(b))" % fix(_q(bp, "Unexp" + ch["S"], "main")))
     body.append("\tc := %s{F: 3}\n\tfmt.Println(c.F, c.M())" % S)       # keyed literal of the base
     if with_reflect:
-        body.append("\tfmt.Printf(\"%%+v|%%T\\n\", b, v)\n\tjs, _ := json.Marshal(v)\n\tfmt.Println(string(js))\n\tfmt.Println(reflect.TypeOf(v).String())")
+        body.append("\tfmt.Printf(\"%+v\\n\", b)\n\tjs, _ := json.Marshal(b)\n\tfmt.Println(string(js))\n\trt := reflect.TypeOf(b)\n\tfmt.Println(rt.Name(), rt.NumField(), rt.Field(0).Name, rt.Field(1).Name)\n"
+                    "\trv := reflect.TypeOf(v)\n\tfor rv.Kind() == reflect.Ptr || rv.Kind() == reflect.Slice || rv.Kind() == reflect.Array || rv.Kind() == reflect.Map {\n\t\trv = rv.Elem()\n\t}\n"
+                    "\tif rv.Kind() == reflect.Struct {\n\t\tfor i := 0; i < rv.NumField(); i++ {\n\t\t\tfmt.Print(rv.Field(i).Name, \" \")\n\t\t}\n\t\tfmt.Println(rv.Name() != \"\")\n\t}")
     body.append("\t_ = w")
     decls = {k: fix("\n".join(v)) for k, v in ch["decls"].items() if v}
     main_decls = decls.pop("main", "")
